@@ -65,6 +65,15 @@ def run_case(case):
         viols.append(("C05/unequal-candidates/" + shape,
                       "%d candidate keys carry %d different probabilities, e.g. key %r has %s and key %r has %s" % (
                           len(keys), len(ps), probs[ps[0]][0], ps[0], probs[ps[-1]][0], ps[-1])))
+    elif len(probs) == 1 and tr.possible_keys and len(keys) == tr.possible_keys:
+        # equally likely over N candidates, every one of them visited: each has probability 1/N.  The ledger multiplies
+        # 1/range over the integer draws made for the candidate; a candidate chosen some other way (a float scaled to the
+        # range resolves 2^53 values at most, so beyond that most candidates can never be drawn) shows as a path that is
+        # too likely.
+        p = next(iter(probs))
+        if p != 0 and 1 / p != tr.possible_keys:
+            viols.append(("C05/candidate-probability-is-not-one-in-N",
+                          "each of the %d candidate keys was drawn with probability %s by the integer draws made for it" % (tr.possible_keys, p)))
     base["summary"]["distinct_probabilities"] = len(probs)
     viols = [(common.with_family(sg, m), dt) for sg, dt in viols]
     viol = common.pick_violation(PROP, viols)
